@@ -165,6 +165,11 @@ def generate(rng: np.random.Generator) -> List[List[Any]]:
     for _ in range(int(rng.integers(6, 30))):
         r = rng.random()
         name, ver = gen_name(rng), gen_version(rng)
+        if known and rng.random() < 0.3:
+            # another version of a name that is already registered (ids that share a name are distinct ids)
+            name = known[int(rng.integers(0, len(known)))].rsplit("-v", 1)[0]
+            while f"{name}-v{ver}" in known:
+                ver += 1
         id_ = f"{name}-v{ver}"
         kw = {k: int(rng.integers(0, 100)) for k in ["alpha", "beta", "gamma"][: int(rng.integers(0, 4))]}
         if rng.random() < 0.3:
@@ -292,7 +297,17 @@ def shipped_check(stats: Stats, seed: int) -> None:
                                     f"{id_}: {sp} of make(id) differs from the directly constructed documented configuration")
         key = jax.random.PRNGKey(int(rng.integers(0, 2**31 - 1)))
         envs_ = [e1, e2] + ([e3] if e3 is not None else [])
-        cur = [jax.jit(e.reset)(key) for e in envs_]
+        names_ = ["first make(id)", "second make(id)", "documented configuration"]
+        cur = []
+        for j, e in enumerate(envs_):
+            try:
+                cur.append(jax.jit(e.reset)(key))
+            except Exception as ex:  # noqa: BLE001
+                if j == 0:
+                    raise  # nothing to compare with: a harness-level problem
+                # the first environment made from this id answers the request; one made later from the same id does not
+                raise Violation("C18", "registry", "shipped", "two_makes_behave_differently:" + type(ex).__name__,
+                                f"{id_}: reset of the {names_[j]} raised {type(ex).__name__}: {str(ex)[:160]} although the {names_[0]} answered it")
         steps = [jax.jit(e.step) for e in envs_]
         n_steps = 4 if id_ not in ("RubiksCube-v0", "RubiksCube-partly-scrambled-v0") else 24  # past the documented time limit of 20
         for k in range(n_steps):
